@@ -3512,7 +3512,8 @@ namespace jsonschema {
             for (const auto& item : instance.array_range()) 
             {
                 std::size_t errors = local_reporter.errors.size();
-                walk_state result = schema_validator_->validate(this_context, item, instance_location / index, results, local_reporter, patch);
+                evaluation_results item_results;
+                walk_state result = schema_validator_->validate(this_context, item, instance_location / index, item_results, local_reporter, patch);
                 if (result == walk_state::abort)
                 {
                     return result;
